@@ -201,7 +201,7 @@ def probe_xarray_unwrap(ctx, tmp):
     compare(ctx, case, base, got, v.name)
 
 
-def compare(ctx, case, base, got, vname, rerun=None):
+def compare(ctx, case, base, got, vname, rerun=None, base_name="global default config"):
     """Compare an outcome with the baseline outcome; report through ctx.fail.  `rerun() -> (base outcome, variant outcome)`
     is used when both sides die inside a task with different exception types: which task of a doomed computation fails
     first depends on the thread schedule, so the legal outcome is a set; the case is a failure only if each side is
@@ -222,13 +222,13 @@ def compare(ctx, case, base, got, vname, rerun=None):
         ctx.dist["execute-phase-type-differs(%s/%s)" % (base["exc"], got["exc"])] += 1
         return True
     if (base["phase"], base["exc"]) != (got["phase"], got["exc"]):
-        ctx.fail("acceptance differs: baseline (global default config) -> %s, variant %s -> %s" % (
-            _show(base), vname, _show(got)), c, key=classify(c, base, got))
+        ctx.fail("acceptance differs: baseline (%s) -> %s, variant %s -> %s" % (
+            base_name, _show(base), vname, _show(got)), c, key=classify(c, base, got))
         return False
     if base["phase"] == "ok":
         d = same_values(base["values"], got["values"])
         if d:
-            ctx.fail("values differ between the global default config and variant %s: %s" % (vname, d), c, key=classify(c, base, got))
+            ctx.fail("values differ between the baseline (%s) and variant %s: %s" % (base_name, vname, d), c, key=classify(c, base, got))
             return False
     return True
 
@@ -339,15 +339,15 @@ def _big_transpose(n, c):
 def _big_mixed_add(n, c):
     def build(E):
         an = E.np.arange(n * n, dtype="float64").reshape(n, n)
-        a = E.arr(an, (n, c))
-        b = E.arr(an.T * 0.5, (c, n))
+        a = E.cubed.from_array(an, chunks=(n, c), **E.kw)       # (asarray refuses in-memory arrays above 1 MB)
+        b = E.cubed.from_array(an.T * 0.5, chunks=(c, n), **E.kw)
         return [E.xp.max(E.xp.add(a, b), axis=1)]      # operands chunked across each other: internal rechunk
     return build
 
 
 def _big_1d(n, c1, c2):
     def build(E):
-        a = E.arr(E.np.arange(n, dtype="int64"), (c1,))
+        a = E.cubed.from_array(E.np.arange(n, dtype="int64"), chunks=(c1,), **E.kw)
         return [E.xp.sum(E.cubed.rechunk(a, (c2,)) * 2)]
     return build
 
@@ -367,7 +367,7 @@ def big_corpus(rng, tier):
     out.append(({"corpus": "rechunk_1d", "n": m, "chunks": [1000, 70_000]}, _big_1d(m, 1000, 70_000)))
     if tier != "quick":
         for _ in range(4):
-            case, fn = program_case(rng, families=["rechunk", "binary", "reduce", "permute_dims", "concat", "reshape"], max_elems=200_000)
+            case, fn = program_case(rng, families=["rechunk", "binary", "reduce", "permute_dims", "concat", "reshape"], max_elems=100_000)
             out.append((case, fn))
     return out
 
@@ -422,13 +422,13 @@ def reserved_share_sweep(ctx, cases, tmp, deadline=None, execute_budget=2):
                     c = dict(case, headroom=h, reserved=r, via=via, baseline="Spec(allowed=%d, reserved=0)" % h)
                     ctx.count({"case": label, "n": case.get("n"), "headroom": h, "reserved": r, "via": via},
                               nontrivial=True, kind="share:%s:%s" % (via, base["phase"]))
-                    ok = compare(ctx, c, base, got, v.name)
+                    ok = compare(ctx, c, base, got, v.name, base_name=base_v.name)
                     if ok and base["phase"] == "ok" and executed < execute_budget and r == h and via == "spec" and mult == 2 \
                             and case.get("n", 0) != 1000:
                         executed += 1
                         b2, g2 = run_case(fn, base_v), run_case(fn, v)
                         ctx.count({"case": label, "headroom": h, "reserved": r, "executed": True}, nontrivial=True, kind="share:executed")
-                        compare(ctx, c, b2, g2, v.name)
+                        compare(ctx, c, b2, g2, v.name, base_name=base_v.name)
             if any(not f["key"] for f in ctx.failures):
                 return
 
